@@ -25,7 +25,7 @@ pub const P_FILETRANSFER_DROP: u8 = 6;
 #[derive(Clone, Debug, Serialize, Deserialize)]
 pub struct PMsg {
     pub t: TMsg,
-    /// 0 plain, 1 non-verbose frame of the FIBEX, 2 SOME/IP, 3 CAN, 4 Muniic, 5 rewrite target, 6 file transfer (FLST/FLDA/FLFI and near misses)
+    /// 0 plain, 1 non-verbose frame of the FIBEX, 2 SOME/IP, 3 CAN, 4 Muniic, 5 rewrite target, 6 file transfer (FLST/FLDA/FLFI and near misses), 7 segmented SOME/IP (NWST/NWCH/NWEN)
     pub special: u8,
     pub variant: u32,
 }
@@ -197,6 +197,39 @@ pub fn build(m: &PMsg, index: u32) -> DltMessage {
             d.payload = p;
             d.extended_header = ext(0x01 | (4 << 4), noar, b"SYS\0", b"FILE");
         }
+        7 => {
+            // segmented SOME/IP network trace: NWST (announcement), NWCH (chunk), NWEN (end); few segment ids so that sequences link up
+            let mut p = vec![];
+            let id = (v / 3) % 3;
+            let noar;
+            match v % 3 {
+                0 => {
+                    arg_stra(&mut p, "NWST");
+                    arg_raw(&mut p, &id.to_le_bytes());
+                    arg_raw(&mut p, &vec![1u8; [9usize, 10, 12, 5][((v / 9) % 4) as usize]]);
+                    arg_raw(&mut p, &[0]);
+                    let cnt = [0u16, 1, 2, 3, 0xffff, 1000, 2, 2][((v / 36) % 8) as usize];
+                    if (v / 288) % 7 == 0 { arg_raw(&mut p, &[cnt as u8]); } else { arg_raw(&mut p, &cnt.to_le_bytes()); }
+                    let cs = [0u16, 1, 4, 16, 0xffff, 4, 16, 4][((v / 2016) % 8) as usize];
+                    arg_raw(&mut p, &cs.to_le_bytes());
+                    noar = 6;
+                }
+                1 => {
+                    arg_stra(&mut p, "NWCH");
+                    arg_raw(&mut p, &id.to_le_bytes());
+                    arg_raw(&mut p, &(((v / 9) % 4) as u16).to_le_bytes());
+                    arg_raw(&mut p, &vec![(v % 251) as u8; [1usize, 4, 16, 3, 20][((v / 36) % 5) as usize]]);
+                    noar = 4;
+                }
+                _ => {
+                    arg_stra(&mut p, "NWEN");
+                    arg_raw(&mut p, &id.to_le_bytes());
+                    noar = 2;
+                }
+            }
+            d.payload = p;
+            d.extended_header = ext(0x01 | (2 << 1) | (1 << 4), noar, b"SOME", b"TC\0\0");
+        }
         _ => {}
     }
     d.standard_header.len = (4 + 4 + if d.standard_header.has_timestamp() { 4 } else { 0 } + if d.extended_header.is_some() { 10 } else { 0 } + d.payload.len()) as u16;
@@ -242,6 +275,7 @@ fn run_plugins(msgs: &[PMsg], plugins: &[u8], sched: &SchedCfg, ctx: &mut Ctx) -
             4 => ctx.probe("traffic_muniic"),
             5 => ctx.probe("traffic_rewrite_target"),
             6 => ctx.probe("traffic_file_transfer"),
+            7 => ctx.probe("traffic_someip_segmented"),
             _ => {}
         }
     }
@@ -484,7 +518,7 @@ impl Check for C19 {
             let msgs: Vec<PMsg> = trace
                 .into_iter()
                 .map(|t| {
-                    let special = if sp.chance(1, 2) { 0 } else { 1 + sp.below(6) as u8 };
+                    let special = if sp.chance(1, 2) { 0 } else { 1 + sp.below(7) as u8 };
                     PMsg { t, special, variant: sp.u32() }
                 })
                 .collect();
@@ -547,7 +581,7 @@ impl Check for C19 {
         crate::lc::lc_finding_key(v)
     }
     fn rule() -> &'static str {
-        "two kinds of runs: (plugins) simulated traffic (<= 120 messages) in which half of the messages are shaped to hit the plugins (non-verbose frames of the repository's FIBEX for ECU 'Ecu1' incl. unknown ids/short payloads/missing extended header, SOME/IP and CAN network traces with known/unknown service/frame ids and truncated headers, Muniic MMSG/MDLT, SYS/JOUR rewrite targets incl. huge timestamps) through the real plugin stage as a shuttle thread between bounded channels with a random non-empty subset and order of {non-verbose, SOME/IP, CAN, Muniic, rewrite, file transfer(keepFLDA), file transfer(dropping FLDA)}; traffic includes FLST/FLDA/FLFI messages and near misses, and the expected output is the input minus exactly the data packages when the dropping plugin is configured; (anon) a simulated world (<= 1500 messages) with ECU/APID/CTID populations of 1-999 ids through the real anonymiser, then lifecycle detection on both traces; non-trivial = plugins active and more than one message; distinct = hash of the case"
+        "two kinds of runs: (plugins) simulated traffic (<= 120 messages) in which half of the messages are shaped to hit the plugins (non-verbose frames of the repository's FIBEX for ECU 'Ecu1' incl. unknown ids/short payloads/missing extended header, SOME/IP and CAN network traces with known/unknown service/frame ids and truncated headers, segmented SOME/IP sequences (NWST/NWCH/NWEN with chunk counts/sizes {0,1,..,0xffff}, out-of-order and orphan chunks), Muniic MMSG/MDLT, SYS/JOUR rewrite targets incl. huge timestamps) through the real plugin stage as a shuttle thread between bounded channels with a random non-empty subset and order of {non-verbose, SOME/IP, CAN, Muniic, rewrite, file transfer(keepFLDA), file transfer(dropping FLDA)}; traffic includes FLST/FLDA/FLFI messages and near misses, and the expected output is the input minus exactly the data packages when the dropping plugin is configured; (anon) a simulated world (<= 1500 messages) with ECU/APID/CTID populations of 1-999 ids through the real anonymiser, then lifecycle detection on both traces; non-trivial = plugins active and more than one message; distinct = hash of the case"
     }
     fn assumptions() -> Vec<&'static str> {
         vec![
@@ -562,6 +596,6 @@ impl Check for C19 {
         vec!["traffic generator", "producer/consumer threads, scheduler, channels"]
     }
     fn required_reach() -> Vec<&'static str> {
-        vec!["text_changed", "extended_header_added", "timestamp_rewritten", "traffic_someip", "traffic_can", "traffic_muniic", "traffic_file_transfer", "flda_packages_dropped_as_configured", "large_id_population", "try_send_full"]
+        vec!["text_changed", "extended_header_added", "timestamp_rewritten", "traffic_someip", "traffic_can", "traffic_muniic", "traffic_file_transfer", "traffic_someip_segmented", "flda_packages_dropped_as_configured", "large_id_population", "try_send_full"]
     }
 }
